@@ -15,6 +15,7 @@ pub mod wire;
 pub mod select;
 pub mod lang;
 pub mod resolve;
+pub mod pipeline;
 pub mod cbor;
 pub mod ledger;
 
@@ -70,6 +71,7 @@ fn dispatch(case: &Value) -> Value {
         "wire" => wire::run(case),
         "select" => select::run(case),
         "resolve" => resolve::run(case),
+        "pipeline" => pipeline::run(case),
         "ping" => json!({"pong": true}),
         other => json!({"tool_error": format!("unknown cmd {other}")}),
     }
